@@ -33,7 +33,7 @@ THEOREMS = [
     'CC.C06_unique', 'CC.C06_symm', 'CC.C06_ref_indep', 'CC.C06_same_node_zero',
     'CC.C06_across_ideal_vs_zero', 'CC.C06_port_equation', 'CC.C06_thevenin', 'CC.C06_norton',
     'CC.C06_parallel', 'CC.C06_series', 'CC.C06_impl_early_correct', 'CC.C06_impl_eq_spec',
-    'CC.C06_floating_island_counterexample', 'CC.C06_exists',
+    'CC.C06_floating_island_counterexample', 'CC.C06_exists', 'CC.C06_isolated_port',
     'CC.C06_port_invariant_perm', 'CC.C06_port_invariant_rename', 'CC.C06_port_invariant_reverse', 'CC.C06_port_invariant_reref',
 ]
 OPEN_STATEMENTS = ['CC.C06_impl_complete_statement (false for floating groups of nodes: C06_floating_island_counterexample)']
@@ -83,6 +83,7 @@ def run_impl(f, *a, **k):
     except Exception:
         return ('ok', v)
     if not cmath.isfinite(z):
+        if z.real == math.inf and z.imag == 0: return ('err', 'Infinite')     # `np.inf`: an isolated port node (fix aab1640)
         return ('err', 'NonFinite')
     return ('ok', z)
 
@@ -230,6 +231,65 @@ def has_self_loop(desc):
 
 # --------------------------------------------------------------------------- one port
 
+def judge_undefined(out, spec, impl, canon, op, pretty, case):
+    """the exact Spec says the unit-current problem has NO solution (the port node is isolated: it hangs on
+    zero-admittance branches only, or its admittances cancel exactly): the impedance is infinite.  The implementation
+    must raise or return an infinite / NaN value; a finite number is a wrong answer, and an IndexError is the
+    accident of a label sort order."""
+    if spec.get('consistent', True):
+        out.count('port_undefined'); return
+    out.nontrivial(('isolated_port', op))
+    canon = dict(canon, port_node_isolated=True)
+    if impl[0] == 'ok':
+        out.spec_fail(dict(canon, symptom='finite_value_for_undefined_port'),
+                      f'{op}: no voltage answers a unit test current at this port (infinite impedance); the implementation reports the finite value {impl[1]}',
+                      pretty, impl=dict(value=impl[1]), spec=dict(consistent=False), case=case)
+    elif impl[1] == 'KeyError':
+        out.spec_fail(dict(canon, symptom='raises_IndexError'),
+                      f'{op}: infinite port impedance; the implementation raises IndexError/KeyError (index of the pruned port node)',
+                      pretty, impl=dict(error=impl[1]), spec=dict(consistent=False), case=case)
+    else:
+        out.count('undefined_port_rejected:' + impl[1])
+
+def judge_equivalent_isolated(ctx, out, desc, n1, n2, canon, pretty, case):
+    """Thevenin / Norton wrappers on an open port (isolated port node), judged from the property text: the
+    Thevenin impedance is not finite (raise or inf/NaN); the Norton current is the current through a short
+    attached to the port — when that network is well-posed it has an exact value, and a finite number the
+    implementation reports must be that value; raising or inf/NaN is fine."""
+    from CircuitCalculator.Network.NodalAnalysis import bias_point_analysis as bpa
+    drv = ctx.driver
+    try:
+        net = gen_net.to_impl(desc)
+    except Exception:
+        return
+    if not drv.call('net_consistent', net=gen_net.desc_to_json(desc))['consistent']:
+        # e.g. an ideal current source feeding the isolated node: the network itself has no solution (not a network of C01)
+        out.count('isolated_port_network_inconsistent'); return
+    out.evaluations += 1
+    sid = fresh_id(desc, 'SC')
+    d_sc = dict(desc, branches=desc['branches'] + [dict(n1=n1, n2=n2, id=sid, kind='short', args={})])
+    wp = drv.call('wellposed', net=gen_net.desc_to_json(d_sc))
+    i_short = core.cfloat(wp['i'][sid]) if wp['wellposed'] else None
+    got = [('short_circuit_current', run_impl(bpa.short_circuit_current, net, n1, n2))]
+    es = ES[0]
+    if es is not None:
+        got.append(('NortenEquivalentSource.I', run_impl(lambda: es.NortenEquivalentSource(net, n1, n2).I)))
+        zt = run_impl(lambda: es.TheveninEquivalentSource(net, n1, n2).Z)
+        if zt[0] == 'ok':
+            out.spec_fail(dict(canon, op='equivalent_sources', port_node_isolated=True, symptom='finite_value_for_undefined_port'),
+                          f'TheveninEquivalentSource.Z of an open port is the finite value {zt[1]}', pretty, impl=dict(value=zt[1]), case=case)
+    for name, r in got:
+        if r[0] == 'err':
+            out.count('isolated_norton_rejected:' + r[1]); continue
+        if i_short is None:
+            out.count('isolated_norton_unjudged'); continue
+        if not rel_close(r[1], i_short, max(abs(i_short), 1e-12), 1e-6) and not (abs(i_short) == 0 and abs(r[1]) < 1e-9):
+            out.spec_fail(dict(canon, op='equivalent_sources', port_node_isolated=True, symptom='wrong_norton_current', quantity=name),
+                          f'{name} of an open port is {r[1]}; the current through a short attached to the port is {i_short}', pretty,
+                          impl=dict(value=r[1]), spec=dict(i_short=str(i_short)), case=case)
+        else:
+            out.count('isolated_norton_agrees')
+
 def check_port(ctx, out, desc, n1, n2, exact, op='open_circuit_impedance', removed=None, full_desc=None):
     """`desc` is the network the port impedance is taken of (for element_impedance: the
     network without the element, `removed` = its id, `full_desc` = the original)."""
@@ -286,7 +346,7 @@ def check_port(ctx, out, desc, n1, n2, exact, op='open_circuit_impedance', remov
             out.traces_validated += 1
             if not ok:
                 out.disagree('port_pre', pretty, dict(A=None if Yimpl is None else Yimpl.tolist(), e=None if bimpl is None else list(bimpl)), pre)
-        elif 'early' in pre:
+        elif 'early' in pre or 'infinite' in pre:
             if Yimpl is not None:
                 out.disagree('port_pre', pretty, 'solve called', pre)
         elif Yimpl is not None:
@@ -319,7 +379,10 @@ def check_port(ctx, out, desc, n1, n2, exact, op='open_circuit_impedance', remov
         out.count('ideal_source_loop_outside_domain'); return impl    # branch currents undetermined: not a network of C01
     spec = drv.call('port_spec', net=gen_net.desc_to_json(desc), n1=n1, n2=n2)
     if not spec['defined']:
-        out.count('port_undefined'); return impl
+        judge_undefined(out, spec, impl, canon, op, pretty, case)
+        if removed is None and not spec.get('consistent', True) and n1 != n2:
+            judge_equivalent_isolated(ctx, out, desc, n1, n2, canon, pretty, case)
+        return impl
     z = core.cfloat(spec['z'])
     out.nontrivial((gen_net.shape(desc), facts['early'], facts['ideal_vs_elsewhere'], facts['zero_row_node'], facts['floating_island'], op))
     out.count('spec_defined')
@@ -725,6 +788,7 @@ def check_equivalent_records(ctx, out, es, desc, n1, n2):
         try:
             o = cls(net, n1, n2)
             vals = [complex(getattr(o, f)) for f in fields]
+            if any(v.real == math.inf and v.imag == 0 for v in vals) and all(cmath.isfinite(v) or v.real == math.inf for v in vals): return ('err', 'Infinite')
             if not all(cmath.isfinite(v) for v in vals): return ('err', 'NonFinite')
             return ('ok', vals)
         except Exception as e:
@@ -863,13 +927,17 @@ def check_circuit(ctx, out, comps, n1, n2, ws, el=None):
     out.traces_validated += 1
     ms = m['sweep']
     if 'err' in ms:
-        if zs != ('err', ms['err']) and ms['err'] != 'LinAlgError':
+        inf_in_sweep = zs[0] == 'ok' and any(z.real == math.inf for z in zs[1])
+        if zs != ('err', ms['err']) and ms['err'] != 'LinAlgError' and not (ms['err'] == 'Infinite' and inf_in_sweep):
             out.disagree('circuit.impedance.sweep', pretty, zs, ms)
     elif zs[0] == 'err':
         out.disagree('circuit.impedance.sweep', pretty, zs, ms)
     else:
-        mv = [core.cfloat(x) for x in ms['ok']]
-        if len(mv) != len(zs[1]) or not all(core.close(a, b, 0.0, 1e-6) or not cmath.isfinite(a) for a, b in zip(zs[1], mv)):
+        mv = [math.inf if x == 'inf' else core.cfloat(x) for x in ms['ok']]
+        def same(a, b):
+            if b == math.inf: return a.real == math.inf
+            return core.close(a, b, 0.0, 1e-6) or not cmath.isfinite(a)
+        if len(mv) != len(zs[1]) or not all(same(a, b) for a, b in zip(zs[1], mv)):
             out.disagree('circuit.impedance.sweep', pretty, zs, ms)
     # dc wrapper
     m0 = drv.call('port_sweep', **dict(args, nets=[gen_net.impl_to_json(net0)]))['dc']
@@ -879,7 +947,8 @@ def check_circuit(ctx, out, comps, n1, n2, ws, el=None):
         dc = ('err', tag(e))
     if m0 is not None:
         if 'err' in m0:
-            if dc != ('err', m0['err']) and m0['err'] != 'LinAlgError': out.disagree('circuit.impedance.dc', pretty, dc, m0)
+            if dc != ('err', m0['err']) and m0['err'] != 'LinAlgError' and not (m0['err'] == 'Infinite' and dc[0] == 'ok' and dc[1].real == math.inf):
+                out.disagree('circuit.impedance.dc', pretty, dc, m0)
         elif dc[0] == 'err' or not (core.close(dc[1], core.cfloat(m0['ok']), 0.0, 1e-6) or not cmath.isfinite(dc[1])):
             out.disagree('circuit.impedance.dc', pretty, dc, m0)
     # Spec of the DC wrappers: Re Z(0) of the network the property text prescribes (not of transform_circuit's)
@@ -895,6 +964,13 @@ def check_circuit(ctx, out, comps, n1, n2, ws, el=None):
             ok0 = nd0['zero'] in labels_of(nd0)
     if ok0 and not has_self_loop(nd0) and not has_vs_loop(nd0):
         spec0 = drv.call('port_spec', net=raw_json(nd0), n1=a1, n2=a2)
+        if not spec0['defined'] and a1 != a2 and (a1 not in labels_of(nd0) or a2 not in labels_of(nd0)):
+            out.count('port_node_absent')       # the removed element was the only branch at its terminal: no such node any more
+        elif not spec0['defined'] and a1 != a2:
+            dcj = dc if dc[0] == 'err' or cmath.isfinite(dc[1]) else ('err', 'NonFinite')
+            judge_undefined(out, spec0, dcj, dict(op='circuit_dc_resistance' if el is None else 'circuit_element_dc_resistance',
+                            lossy_other_frequency=lossy_other_frequency(comps, 0.0), **flags(port_facts(nd0, a1, a2))),
+                            'DC resistance wrapper', pretty, case)
         if spec0['defined']:
             f0 = port_facts(nd0, a1, a2)
             z0 = core.cfloat(spec0['z'])
@@ -923,7 +999,21 @@ def check_circuit(ctx, out, comps, n1, n2, ws, el=None):
         if has_self_loop(nd) or has_vs_loop(nd): continue
         spec = drv.call('port_spec', net=raw_json(nd), n1=a1, n2=a2)
         if not spec['defined']:
-            out.count('port_undefined'); continue
+            if a1 not in labels_of(nd) or a2 not in labels_of(nd):
+                out.count('port_node_absent')
+            elif a1 != a2 and not spec.get('consistent', True):
+                try:
+                    zz = complex((cimp.open_circuit_impedance(circuit, n1, n2, np.array([ws[k]], dtype=float)) if el is None
+                                  else cimp.element_impedance(circuit, el, np.array([ws[k]], dtype=float)))[0])
+                    zj = ('ok', zz) if cmath.isfinite(zz) else ('err', 'NonFinite')
+                except Exception as e:
+                    zj = ('err', tag(e))
+                judge_undefined(out, spec, zj, dict(op='circuit_impedance' if el is None else 'circuit_element_impedance',
+                                lossy_other_frequency=lossy_other_frequency(comps, ws[k]), **flags(port_facts(nd, a1, a2))),
+                                f'impedance wrapper at w={ws[k]}', pretty, case)
+            else:
+                out.count('port_undefined')
+            continue
         facts = port_facts(nd, a1, a2)
         out.nontrivial(('circuit', len(comps), ws[k] == 0, facts['ideal_vs_elsewhere'], facts['zero_row_node'], facts['floating_island'], el is None))
         z = core.cfloat(spec['z'])
@@ -1036,6 +1126,13 @@ def gen_floating(rng, desc):
     return dict(branches=br, zero=desc['zero'])
 
 CIRCUIT_CORPUS = [
+    # audit 2: port at a node that hangs on a capacitor at w = 0 (infinite impedance), label sorting before / after the others
+    ([dict(kind='C', id='C', nodes=['a', 'm'], v=1.0), dict(kind='R', id='R', nodes=['m', '0'], v=5.0), dict(kind='R', id='R2', nodes=['x', '0'], v=7.0),
+      dict(kind='gnd', id='gnd', nodes=['0'])], 'a', '0', [0.0, 1.0], None),
+    ([dict(kind='C', id='C', nodes=['z', 'm'], v=1.0), dict(kind='R', id='R', nodes=['m', '0'], v=5.0), dict(kind='gnd', id='gnd', nodes=['0'])], 'z', '0', [0.0, 1.0], None),
+    # parallel L || C at resonance: the admittances at the port node cancel exactly
+    ([dict(kind='L', id='L', nodes=['a', '0'], v=1.0), dict(kind='C', id='C', nodes=['a', '0'], v=1.0), dict(kind='R', id='R', nodes=['b', '0'], v=7.0),
+      dict(kind='gnd', id='gnd', nodes=['0'])], 'a', '0', [0.5, 1.0, 2.0], None),
     # audit: internal R / G of a source at a foreign frequency (open finding, root cause C09-3)
     ([dict(kind='Vdc', id='V', nodes=['1', '0'], v=1.0, R=4.0), dict(kind='R', id='R', nodes=['1', '0'], v=4.0), dict(kind='gnd', id='gnd', nodes=['0'])], '1', '0', [0.0, 1.0], None),
     ([dict(kind='Idc', id='I', nodes=['0', '1'], v=1.0, G=0.25), dict(kind='R', id='R', nodes=['1', '0'], v=4.0), dict(kind='gnd', id='gnd', nodes=['0'])], '1', '0', [0.0, 1.0], None),
@@ -1048,6 +1145,11 @@ CIRCUIT_CORPUS = [
 ]
 
 CORPUS = [
+    # audit 2: port node hanging on an open branch (sorting before / after the other labels); source with a dangling terminal
+    dict(zero='0', branches=[dict(n1='a', n2='0', id='O', kind='open', args={}), dict(n1='b', n2='0', id='R', kind='resistor', args=dict(R=5.0))]),
+    dict(zero='0', branches=[dict(n1='z', n2='0', id='O', kind='open', args={}), dict(n1='b', n2='0', id='R', kind='resistor', args=dict(R=5.0))]),
+    dict(zero='0', branches=[dict(n1='a', n2='0', id='I', kind='cs_ideal', args=dict(I=1.0)), dict(n1='a', n2='b', id='O', kind='open', args={}),
+                             dict(n1='b', n2='0', id='R', kind='resistor', args=dict(R=5.0))]),
     # unit scales: 1 GΩ / 1 GΩ divider fed through 50 Ω — Z(mid, 0) = 0.5 GΩ (+25 Ω)
     dict(zero='0', branches=[dict(n1='in', n2='0', id='Rs', kind='resistor', args=dict(R=50.0)),
                              dict(n1='in', n2='mid', id='R1', kind='resistor', args=dict(R=1e9)),
